@@ -6,6 +6,7 @@ import (
 	"flag"
 	"fmt"
 	"io"
+	"math/rand"
 	"os"
 	"time"
 
@@ -76,6 +77,9 @@ func crRun(args []string) error {
 	w.flush = true
 	n := 0
 	names := []string{"initial", "reading", "flushing", "done"}
+	// the pool sensor of the pipeline checks: buffers are poisoned when they go back to the pool; a buffer written
+	// after that, or put twice, is reported
+	lz4.VerifSetHooks(dispatchHook, dispatchPool)
 	err = readND(*in, func(line []byte) error {
 		var c crCase
 		if err := json.Unmarshal(line, &c); err != nil {
@@ -90,6 +94,8 @@ func crRun(args []string) error {
 			reset    rec
 		}
 		done := make(chan res, 1)
+		pl := &pipeLog{chans: map[uintptr]int{}, bufs: map[uintptr]int{}, poisoned: map[uintptr]int{}, rnd: rand.New(rand.NewSource(int64(c.ID))), poison: true, maxEv: 0}
+		currentLog.Store(pl)
 		go func() {
 			var r res
 			defer func() {
@@ -168,8 +174,15 @@ func crRun(args []string) error {
 			r.out = ob.Bytes()
 		}()
 		e := rec{"ev": "crun", "case": c.ID, "opts": optsRec(c.Opts), "inputLen": len(input), "block": blockBytes(c.Opts), "failPos": c.FailPos}
+		poolState := func() []string {
+			currentLog.Store(nil)
+			pl.mu.Lock()
+			defer pl.mu.Unlock()
+			return append([]string{}, pl.badPut...)
+		}
 		select {
 		case r := <-done:
+			e["poison"] = poolState()
 			p := ref.ParseFrame(r.out, true)
 			e["calls"], e["panicked"], e["hung"] = r.calls, r.panicked, false
 			if r.reset != nil {
